@@ -576,3 +576,50 @@ def gen_history_leaving(rng, n_ops=10):
             hist.append(["drain"])
     hist.append(["drain"])
     return hist
+
+
+def gen_history_renames(rng, n_renames=4):
+    """Directed family for C02/C01: a nested chain of directories (with files) is built, then directories of the tree -
+    preferably ancestors of other directories - are renamed several times, moved out and back in; paced (drain after
+    every directory operation) so that the pacing condition holds trivially."""
+    sh = Shadow()
+    hist = []
+    fresh = iter(["n%d" % i for i in range(40)])
+
+    def do(kind, p, q=None, drain=True):
+        if sh.apply(kind, tuple(p), tuple(q) if q else None):
+            hist.append(["op", kind, list(p)] + ([list(q)] if q else []))
+            if drain:
+                hist.append(["drain"])
+            return True
+        return False
+    depth = rng.randint(2, 3)
+    p = ("R",)
+    for _ in range(depth):
+        p = p + (rng.choice(NAMES),)
+        do("mkdir", p, drain=rng.random() < 0.6)
+        if rng.random() < 0.5:
+            do("touch", p + ("f",), drain=False)
+        if rng.random() < 0.4:
+            do("mkdir", p + (next(fresh),), drain=rng.random() < 0.5)
+    hist.append(["drain"])
+    for _ in range(n_renames):
+        dirs = [d for d in sh.dirs("R") if len(d) > 1]
+        if not dirs:
+            break
+        # prefer directories that have sub-directories
+        withsub = [d for d in dirs if any(sh.ent.get(c) for c in sh.children(d))]
+        d = rng.choice(withsub or dirs)
+        r = rng.random()
+        if r < 0.6:
+            do("rename", d, d[:-1] + (next(fresh),))
+        elif r < 0.8:
+            # to another parent inside the tree
+            pars = [x for x in sh.dirs("R") if x[:len(d)] != d]
+            do("rename", d, rng.choice(pars) + (next(fresh),))
+        else:
+            out = ("O", next(fresh))
+            if do("rename", d, out):
+                do("rename", out, rng.choice(sh.dirs("R")) + (next(fresh),))
+    hist.append(["drain"])
+    return hist
